@@ -255,6 +255,14 @@ def specs(tier):
             vv = (np.argsort(np.argsort((np.arange(nnz) * 37) % 101)) + 1).astype(np.float32)
             yield Call("sparse_localmaxlabel", [A(vv), A(i), A(j), I(nnz), A(np.zeros(nnz, np.float32), "out"), A(np.zeros(nnz, np.int32), "out"),
                                                 A(np.zeros(nnz, np.int32), "out")])
+            # an isolated pixel (two rows below everything else) holding a bad-pixel marker: a huge negative number, -inf, NaN
+            if nnz and int(i.max()) < 60000:
+                i2 = np.concatenate([i, [int(i.max()) + 2]]).astype(np.uint16); j2 = np.concatenate([j, [1]]).astype(np.uint16)
+                for badv in (-1e30, -np.inf, np.nan):
+                    v2 = np.concatenate([vv, [badv]]).astype(np.float32)
+                    yield Call("sparse_localmaxlabel", [A(v2), A(i2), A(j2), I(nnz + 1), A(np.zeros(nnz + 1, np.float32), "out"),
+                                                        A(np.zeros(nnz + 1, np.int32), "out"), A(np.zeros(nnz + 1, np.int32), "out")],
+                               note="isolated pixel = %r" % badv)
         # more isolated pixels than the labelling's bookkeeping table initially holds (16384): the table has to grow inside the call
         for side, step_ in ((262, 2), (400, 2)):
             I_, J_ = np.mgrid[0:side:step_, 0:side:step_]
